@@ -124,13 +124,14 @@ class WeightedRelativeEntropy(ProbabilityBasedLossFunction):
         self._validate_weights(weights)
         self._weights = weights
 
-    def _sets_weight_by_mode(
+    def _set_weights_by_mode(
         self, mode_weight: str, data: List[Tuple[int, np.ndarray]]
     ) -> None:
         if mode_weight == "identity":
-            pass
+            # weights of an earlier configuration of this object must not survive
+            self.set_weights(None)
         elif mode_weight == "custom":
-            self.set_weight_matrices(self.option.weights)
+            self.set_weights(self.option.weights)
 
     def _update_on_value_true(self) -> bool:
         """validates and updates ``on_value`` to True.
